@@ -51,7 +51,7 @@ func Composite(t reflect.Type) (name string, isUnion bool) {
 	if _, ok := UnionTypes[t.Name()]; ok {
 		return t.Name(), true
 	}
-	return t.Name(), false
+	return TypeName(t), false
 }
 
 // FieldsOf lists the graphql fields of an object type: exported struct fields (tags
@@ -246,6 +246,17 @@ func (q *Query) Root() string {
 	}
 	return "Query"
 }
+
+// TypeName is the GraphQL name a pool struct type is registered under (its Go name, unless
+// the pool registers it under another one).
+func TypeName(t reflect.Type) string {
+	if n, ok := typeNameOverride[t.Name()]; ok {
+		return n
+	}
+	return t.Name()
+}
+
+var typeNameOverride = map[string]string{"F3": "F_3"}
 
 // Text prints the query as GraphQL.
 func (q *Query) Text() string {
